@@ -78,6 +78,17 @@ class Restricted:
     def hess(self, x): return self.fn.hess(x)
 
 
+class Prox:
+    """fn(x) + rho/2 ||x - centre||^2: a proximal step.  In the call-back handed to the solver the centre is read from
+    the caller's start-point matrix on every call (make_F(live_centre=True)); the oracle's copy keeps the fixed centre."""
+    def __init__(self, fn, centre, rho):
+        self.fn, self.centre, self.rho = fn, np.array(centre, dtype=float), float(rho)
+    def indom(self, x): return self.fn.indom(x)
+    def val(self, x): return self.fn.val(x) + 0.5 * self.rho * float((x - self.centre) @ (x - self.centre))
+    def grad(self, x): return self.fn.grad(x) + self.rho * (x - self.centre)
+    def hess(self, x): return self.fn.hess(x) + self.rho * np.eye(len(x))
+
+
 class Shifted:
     """fn - const (same domain and derivatives): moves the optimal value of a cp problem"""
     def __init__(self, fn, const):
@@ -145,7 +156,7 @@ class NLProb:
             Hm = Hm + zk * f.hess(x)
         return Hm
 
-    def make_F(self, log, sparse_Df=False, sparse_H=False, scalar_f=False, none_style=0, keep_x0=False):
+    def make_F(self, log, sparse_Df=False, sparse_H=False, scalar_f=False, none_style=0, keep_x0=False, live_centre=False):
         """cvxopt call-back.  log receives (kind, x, indom) for every call.
         keep_x0: F() returns the same caller-owned matrix object on every call (F.x0_object); a solver that
         uses it as its iterate overwrites the caller's start point."""
@@ -167,6 +178,17 @@ class NLProb:
                     return mret, x0_object
                 return mret, matrix([float(v) for v in prob.x0], (prob.n, 1))
             xv = np.array(list(x), dtype=float)
+            if live_centre and x0_object is not None and isinstance(prob.funcs[0], Prox):
+                # the user's objective reads its prox centre from the matrix it handed out as start point
+                fixed = prob.funcs[0].centre
+                prob.funcs[0].centre = np.array(list(x0_object), dtype=float)
+                try:
+                    return F_inner(x, z, xv)
+                finally:
+                    prob.funcs[0].centre = fixed
+            return F_inner(x, z, xv)
+
+        def F_inner(x, z, xv):
             ind = prob.indom(xv)
             log.append(("F(x,z)" if z is not None else "F(x)", xv, ind))
             if not ind:
